@@ -50,7 +50,7 @@ def families(tier):
                                      forwards=edges, fwd_first=fwd_first, settle=3.0)))
     # second concurrent event from another entry / event dispatched from inside a handler, on a selection of shapes
     shapes = {'chain': [('A', 'B'), ('B', 'C')], 'cycle': [('A', 'B'), ('B', 'C'), ('C', 'A')], 'diamond': [('A', 'B'), ('A', 'C'), ('B', 'C')],
-              'double': [('A', 'B'), ('A', 'B'), ('B', 'A')], 'full': [(a, b) for a in names for b in names], 'fan_in': [('A', 'C'), ('B', 'C'), ('C', 'C')]}
+              'double': [('A', 'B'), ('A', 'B'), ('B', 'A')], 'double_chain': [('A', 'B'), ('A', 'B'), ('B', 'C')], 'full': [(a, b) for a in names for b in names], 'fan_in': [('A', 'C'), ('B', 'C'), ('C', 'C')]}
     cfg2 = dict(bound=3 if deep else 2, cap=20000 if deep else 1500, window=0.25, max_targets=1)
     for sname, edges in shapes.items():
         for entry, entry2, inside, par in itertools.product(names, names, (False, True), (False, True)):
@@ -127,6 +127,16 @@ def families(tier):
         out.append(dict(prop='C07', family='c07.second_route_after_rejection', id=f'c07/rej2nd-n{nfill}-d{int(drain_all)}-o{"".join(order)}', cfg=dict(cfg2, max_points=400),
                         params=dict(edges=edges, entry='A', rejected_first=True, drain_all=drain_all),
                         scn=dict(buses={b: {} for b in names}, order=order, handlers=hs, reg=reg, main=[('disp', 'A', 'P', 'ff')], actors=[], forwards=edges, settle=3.0, no_watch=True)))
+    # one bus is handed the event twice (two wildcard forwards A -> B) and forwards it down a chain B -> C -> D; C has a slow wildcard handler registered
+    # AFTER its forward, so B (with its second copy) and D both get their turn while C is still busy
+    n4 = ['A', 'B', 'C', 'D']
+    for slow_on, order in itertools.product('BC', (n4, n4[::-1])):
+        edges = [('A', 'B'), ('A', 'B'), ('B', 'C'), ('C', 'D')]
+        hs = probes(n4) + [dict(bus=slow_on, pat='*', name='haudit', prog=[('pause',), ('ret', 'audited')])]
+        ix = {h['name']: i for i, h in enumerate(hs)}
+        reg = [('h', ix['probe' + b]) for b in n4] + [('h', ix['hq' + b]) for b in n4] + [('f', 'A', 'B'), ('f', 'A', 'B'), ('f', 'B', 'C'), ('f', 'C', 'D'), ('h', ix['haudit'])]
+        out.append(dict(prop='C07', family='c07.double_edge_then_chain', id=f'c07/dbl-chain-slow{slow_on}-o{"".join(order)}', cfg=cfg2, params=dict(edges=edges, entry='A'),
+                        scn=dict(buses={b: {} for b in n4}, order=order, handlers=hs, reg=reg, main=[('disp', 'A', 'P', 'ff')], actors=[], forwards=edges, settle=3.0)))
     # three buses all REQUESTED under one name (legitimate: the library warns and renames the newcomers): they are still three different buses
     for sname, edges in shapes.items():
         for entry in names:
@@ -211,4 +221,12 @@ def oracle(spec, res):
             out.append(V('results_do_not_accumulate_per_bus', f'{ev}: probe results per bus {per}, reachable {sorted(reach)}'))
         if fe['status'] != 'completed' or not fe['sig']:
             out.append(V('event_not_complete_at_quiescence', f'{ev}: {fe["status"]} sig={fe["sig"]}'))
+        # 'processed by every reachable bus' is part of what the event's completion stands for: when it is first seen complete, no reachable bus is still to come
+        st = tr.states.get(ev)
+        if st:
+            fc = next((seq for seq, s_ in zip(*st) if s_[1] is True), None)  # the completion signal is what an await on the event waits for
+            if fc is not None:
+                later = sorted({en[2] for en in tr.enters if en[4] == ev and en[3].startswith('probe') and en[0] > fc})
+                if later:
+                    out.append(V('complete_before_every_reachable_bus_processed_it', f'{ev} seen complete at seq {fc}; probes of {later} started after that'))
     return out[:6]
